@@ -27,7 +27,8 @@ func dslValidationFiles(f string) bool {
 }
 
 func init() {
-	reg("C14", rulePlan, ruleRecordOrder)
+	reg("C02", ruleJsonKinds, ruleUnionTagDecision, ruleKindTests, ruleOptionalFieldSymmetry)
+	reg("C14", rulePlan, ruleRecordOrder, ruleOptionalFieldSymmetry)
 	reg("C10", rulePairAccess, ruleConstIndex(frontEndNoEvolution, "P2", 30), ruleMakeBounds, ruleErrorProvenance, ruleBreakInSwitchInLoop, rulePositions, ruleNodeLiteralsPositioned, ruleBigIndex, ruleAborts(frontEndNoEvolution, "P4", 25),
 		ruleE3(frontScope, "E3"))
 	reg("C20", ruleWatchSerialised, ruleWatchRecovers, ruleChdirRestored)
